@@ -368,7 +368,9 @@ def configs(tier):
                                     server=server, traced=traced))
     # two application threads at once (conflicting pairs)
     pairs = [('raw_recv', 'ldl_recvfrom'), ('dlc_recv', 'accept'),
-             ('resolve', 'connect_name'), ('dlc_send_window', 'ldl_poll_recv')]
+             ('resolve', 'connect_name'), ('dlc_send_window', 'ldl_poll_recv'),
+             # two waiters on one condition (service discovery answers)
+             ('resolve', 'resolve')]
     for role in ('initiator',):
         for cause in ('disc', 'timeout', 'terminate'):
             for a, b in pairs:
